@@ -36,7 +36,7 @@ MANIFEST = {
 EXPLANATION = MANIFEST["level_text"]
 TRUSTED = [
     "pyvc VC generator; regex translation (re._parser -> SMT regex, IGNORECASE sets read from CPython's matcher)",
-    "z3 5.1.0 / cvc5 1.0.3",
+    "z3 5.1.0 / cvc5 1.4.0",
     "re.search succeeds on every string containing a substring the pattern fully matches (definition of search; bounded native cross-check L1b)",
     "logging: the record's `claims` attribute is exactly the `extra['claims']` object handed to Logger.info / appended to the deferred sink",
 ]
